@@ -241,7 +241,7 @@ impl<'a> TryFrom<ReadRr<'a>> for ReadTsigRr<'a> {
     fn try_from(rr: ReadRr<'a>) -> Result<Self, Self::Error> {
         if rr.rr_type != Type::TSIG {
             return Err(FromReadRrError::NotTsig);
-        } else if rr.class != Qclass::ANY.into() || u32::from(rr.ttl) != 0 {
+        } else if rr.class != Qclass::ANY.into() || rr.raw_ttl != 0 {
             return Err(FromReadRrError::FormErr);
         }
 
